@@ -696,7 +696,8 @@ func runWuffs(r *hlib.Run) {
 		accepted++
 		r.Nontrivial(string(c.src))
 		if len(c.src) <= 48<<10 {
-			// the hypothesis of Props.C12.render_retokenizes_partial must hold for whatever the real
+			// the hypotheses of Props.C12.render_retokenizes_partial and render_idempotent (streamOK, and
+			// numColonFree: no numeric literal directly before a ":") must hold for whatever the real
 			// Tokenize + Parse + Render accept (evaluated by the Lean driver on Tokenize's model)
 			r.Op("rok "+hlib.Hex(c.src), "1")
 			r.Count("wuffs:rok-op")
